@@ -978,6 +978,15 @@ impl<K: Elem, V: Elem> MapDrv<K, V> {
         let h = self.bh.hash_of(id);
         let bh = self.bh;
         oplog!(ctx, "raw_entry_mut how{} ({},g{}) sub{} val {},g{}", how, id, kg, sub, vv, vg);
+        // a vacant raw entry may be filled with ANY key: the stored key is hashed on its own, the probed one is forgotten
+        let other: Option<u32> = if sub >= 7 && m.is_none() && self.lawful {
+            let u = self.universe.max(1);
+            let start = rng.below(u as u64) as u32;
+            (0..u.min(64)).map(|d| (start + d) % u).find(|x| *x != id && self.model.get(*x).is_none())
+        } else {
+            None
+        };
+        let other_key = other.map(|o| self.mk_k(o));
         let b = self.map.raw_entry_mut();
         let e = match how {
             0 => b.from_key(&KeyRef(id)),
@@ -992,6 +1001,8 @@ impl<K: Elem, V: Elem> MapDrv<K, V> {
         let mut set = false;
         let mut removed = false;
         let mut newkey = false;
+        let mut inserted_other = false;
+        let other_kg = other_key.as_ref().map(|x| x.1).unwrap_or(0);
         match e {
             RawEntryMut::Occupied(mut o) => {
                 occupied = true;
@@ -1076,6 +1087,20 @@ impl<K: Elem, V: Elem> MapDrv<K, V> {
                         b.check();
                         inserted = true;
                     }
+                    7 | 8 if other_key.is_some() => {
+                        let (k2, _) = other_key.unwrap();
+                        let id2 = other.unwrap();
+                        let (a, b) = if sub == 7 {
+                            ve.insert(k2, v)
+                        } else {
+                            let e2 = RawEntryMut::Vacant(ve);
+                            e2.or_insert(k2, v)
+                        };
+                        a.check();
+                        b.check();
+                        crate::check!(a.id() == id2, "raw vacant insert of key {} (probed {}): the returned key reference shows {}", id2, id, a.id());
+                        inserted_other = true;
+                    }
                     _ => {} // dropped unused
                 }
             }
@@ -1083,6 +1108,15 @@ impl<K: Elem, V: Elem> MapDrv<K, V> {
         self.presence(occupied, id, "raw_entry_mut");
         if inserted {
             self.model.insert(id, kg, vv, vg);
+        }
+        if inserted_other {
+            let id2 = other.unwrap();
+            let kg2 = other_kg;
+            self.model.insert(id2, kg2, vv, vg);
+            // the key that was stored must be findable under its own hash, and the probed one must still be absent
+            let got = self.map.get(&KeyRef(id2)).map(|x| (x.id(), x.gen()));
+            crate::check!(!compare || got == Some((vv, vg)), "raw_entry_mut probed with {} and filled with key {}: get({}) = {:?}", id, id2, id2, got);
+            crate::check!(!compare || !self.map.contains_key(&KeyRef(id)), "raw_entry_mut probed with {} and filled with key {}: the probed key is now present", id, id2);
         }
         if set {
             if let Some(p) = self.model.pos(id) {
